@@ -1170,3 +1170,35 @@ func definingCall(f *Fn, e ast.Expr) (call *ast.CallExpr, k int) {
 	}
 	return call, k
 }
+
+// membershipPredicate: g is `func(..) bool { _, ok := <map>[<parameter>]; return ok }` (or `return <map>[<parameter>]`
+// on a map of bool): a membership test of a map under a name.
+func (c *Ctx) membershipPredicate(g *types.Func) bool {
+	f := c.fnOf(g)
+	if f == nil || f.Decl.Body == nil {
+		return false
+	}
+	list := f.Decl.Body.List
+	pk := f.Pkg
+	switch len(list) {
+	case 1:
+		ret, ok := list[0].(*ast.ReturnStmt)
+		if !ok || len(ret.Results) != 1 {
+			return false
+		}
+		_, _, isIdx := indexOn(pk, ret.Results[0])
+		return isIdx
+	case 2:
+		as, ok := list[0].(*ast.AssignStmt)
+		ret, ok2 := list[1].(*ast.ReturnStmt)
+		if !ok || !ok2 || len(as.Lhs) != 2 || len(as.Rhs) != 1 || len(ret.Results) != 1 {
+			return false
+		}
+		if _, _, isIdx := indexOn(pk, as.Rhs[0]); !isIdx {
+			return false
+		}
+		okId, rid := identOf(as.Lhs[1]), identOf(ret.Results[0])
+		return okId != nil && rid != nil && pk.TypesInfo.Uses[rid] == pk.TypesInfo.Defs[okId]
+	}
+	return false
+}
